@@ -158,6 +158,34 @@ func c24Gen(rng *core.Rng, tier string) *harness.Plan {
 		dur = time.Duration(70+rng.IntN(110)) * time.Second
 	}
 	p.Params["dur_ms"] = int64(dur / time.Millisecond)
+	if rng.Chance(0.12) {
+		// a quiet network: one node at a time gets a transaction and, close to the end of the round that
+		// transaction opened, another one, then no steps for a moment. When it comes to the second one its
+		// round must be closed, but no other chain has moved since (there is no newer round to reference):
+		// the proposal is deferred and must come back.
+		p.Params["quiet"] = 1
+		for k := range p.Params {
+			if k == "dup_ppm" || k == "reorder_ppm" {
+				delete(p.Params, k)
+			}
+		}
+		p.Params["maxlat_ms"] = int64(5 + rng.IntN(30))
+		at := 3 * time.Second
+		i := 0
+		for at < dur-8*time.Second {
+			target := rng.IntN(9)
+			p.Ops = append(p.Ops, harness.Op{At: int64(at / time.Microsecond), Kind: "deposit", S: fmt.Sprint("q", i, "a"), N: target, A: int64(rng.IntN(4)), B: int64(rng.IntN(2000)), C: int64(rng.IntN(4))})
+			second := at + rng.Dur(2100*time.Millisecond, 3300*time.Millisecond)
+			p.Ops = append(p.Ops, harness.Op{At: int64(second / time.Microsecond), Kind: "deposit", S: fmt.Sprint("q", i, "b"), N: target, A: int64(rng.IntN(4)), B: int64(rng.IntN(2000)), C: int64(rng.IntN(4))})
+			if rng.Chance(0.7) {
+				p.Ops = append(p.Ops, harness.Op{At: int64((second + rng.Dur(0, 400*time.Millisecond)) / time.Microsecond), Kind: "stall", N: target, A: int64(150 + rng.IntN(1200))})
+			}
+			at = second + rng.Dur(7*time.Second, 12*time.Second)
+			i++
+		}
+		sortOps(p)
+		return p
+	}
 	// bursts produce overlapping batches on one proposer
 	seq := 0
 	for b := 0; b < 2+rng.IntN(4); b++ {
@@ -166,6 +194,9 @@ func c24Gen(rng *core.Rng, tier string) *harness.Plan {
 		for k := 0; k < 3+rng.IntN(7); k++ {
 			seq++
 			p.Ops = append(p.Ops, harness.Op{At: int64((at + rng.Dur(0, 4*time.Second)) / time.Microsecond), Kind: "deposit", S: fmt.Sprint("b", seq), N: target, A: int64(rng.IntN(4)), B: int64(rng.IntN(2000)), C: int64(rng.IntN(4))})
+		}
+		for k := 0; k < rng.IntN(3); k++ {
+			p.Ops = append(p.Ops, harness.Op{At: int64((at + rng.Dur(200*time.Millisecond, 5*time.Second)) / time.Microsecond), Kind: "resubmit", S: fmt.Sprint("r", b, "-", k), N: target, A: int64(rng.IntN(1000)), B: int64(rng.IntN(3))})
 		}
 		if rng.Chance(0.6) {
 			// the proposer gets no steps for a while in the middle of the burst: it wakes up behind its peers
@@ -245,14 +276,14 @@ func c24Exec(p *harness.Plan) *harness.Outcome {
 	r.out.Probes["accepted_finalized"] += fin
 	r.out.Probes["accepted_total"] += total
 	relabelPanic(r, "C24")
-	return r.finish(mon.retired > 0 && fin > 0, map[string]any{"retired": mon.retired, "requeued_members": mon.requeued, "withheld": mon.withheld, "finalized": fin, "accepted": total})
+	return r.finish((mon.retired > 0 || p.P("quiet", 0) == 1) && fin > 0, map[string]any{"retired": mon.retired, "requeued_members": mon.requeued, "withheld": mon.withheld, "finalized": fin, "accepted": total})
 }
 
 func init() {
 	harness.Register(&harness.Property{
 		ID:    "C24",
 		Level: "exploration",
-		Rule: "seeded cluster runs with bursts (overlapping batches on one proposer), 2-5 withholding windows (commitments / responses / challenges / announcements / finalizations dropped on the links of one node for 1.5-10 s), partitions, clock jumps past the round gap; the local proposal set of every node is diffed after every step and every member of a retired proposal is looked up (finalization record, stored body, other active proposals, cache queue order records); after the last fault all admitted transactions must finalize everywhere within 120 simulated seconds without client retries; " +
+		Rule: "seeded cluster runs with bursts (overlapping batches on one proposer; clients repeating a still-pending submission with fresh ones right behind it), 2-5 withholding windows (commitments / responses / challenges / announcements / finalizations dropped on the links of one node for 1.5-10 s), partitions, clock jumps past the round gap; one run in eight is a quiet network (one node at a time gets a second transaction near the end of the round its first one opened, then stalls briefly: no newer external round exists and the proposal is deferred); the local proposal set of every node is diffed after every step and every member of a retired proposal is looked up (finalization record, stored body, other active proposals, cache queue order records); after the last fault all admitted transactions must finalize everywhere within 120 simulated seconds without client retries; " +
 			"non-trivial = at least one proposal retired and one transaction finalized; distinct = canonical-log digests. No crash faults in these runs (a crash legitimately drops queue entries).",
 		Components: clusterComponents,
 		Assume:     clusterAssume,
